@@ -1,5 +1,6 @@
 import errno
 import uuid
+from datetime import timedelta
 
 import zmq
 import zmq.utils.jsonapi as json
@@ -78,7 +79,12 @@ class AsyncCircusClient(object):
         while True:
             future = concurrent.Future()
             self.stream.on_recv(future.set_result)
-            messages = yield future
+            try:
+                messages = yield tornado.gen.with_timeout(
+                    timedelta(seconds=self._timeout), future)
+            except tornado.gen.TimeoutError:
+                self.stream.stop_on_recv()
+                raise CallError("Timed out.")
 
             for message in messages:
                 try:
